@@ -151,6 +151,17 @@ def run(chk):
     elif not (o['ok']['y'] and o['ok']['x_grad'] and o['ok']['scope_grads']):
       chk.violation('oracle', 'lift.vjp over several scopes at depths %s: the primal, the input cotangent or the cotangent returned for a scope is not that of the pure function (a scope received '
                     'the cotangent of another scope\'s parameter)' % c['depths'], {'case': c, 'observed': o['ok']})
+  # the lifted gradient differentiated again (gradient penalty): outer jax.grad of apply and an enclosing nn.vjp over params
+  so = [{'w': [rng.randint(-2, 3) / 2.0 for _ in range(3)], 'b': [rng.randint(-2, 3) / 2.0 for _ in range(3)], 'x': [rng.randint(-3, 3) / 2.0 for _ in range(3)]} for _ in range(12 if thorough else 3)]
+  for c, o in zip(so, common.run_impl('impl_c07.py', {'second_order': so}, timeout=900)['second_order']):
+    chk.count({'second_order': c}, True)
+    if 'err' in o:
+      chk.violation('oracle', 'differentiating a module that uses nn.value_and_grad / nn.grad inside raised: %s' % o['err'], {'case': c, 'tb': o.get('tb')})
+      continue
+    for k, r in o['ok'].items():
+      if not all(v for kk, v in r.items() if isinstance(v, bool)):
+        chk.violation('oracle', 'nn.value_and_grad / nn.grad used inside a module that is itself differentiated (%s): the value, the inner input gradient, or the outer gradient w.r.t. the '
+                      'parameters / the input differs from jax autodiff of the pure function' % k, {'case': c, 'observed': r})
   chk.sample({'case': cases[0], 'observed': obs[0].get('ok', {}).get('impl')})
   hdr = HEADER + '''Definition chk (b : bool) : bool := b.
 Fixpoint ys_match (ys : list Z) (es : list (option Z)) : bool :=
